@@ -50,7 +50,11 @@ Definition model_step (g defttl : Z) (st : state) (s : step) : state * nat :=
 Definition reb (t0 d : Z) : Z := if d =? 0 then 0 else t0 + d.
 Definition reb_ent (t0 : Z) (p : Z * entry) : Z * entry := (fst p, (fst (snd p), reb t0 (snd (snd p)))).
 Definition reb_op (t0 : Z) (o : op) : op :=
-  match o with ORestore data => ORestore (map (reb_ent t0) data) | _ => o end.
+  match o with
+  | ORestore data => ORestore (map (reb_ent t0) data)
+  | OLoad data => OLoad (map (reb_ent t0) data)
+  | _ => o
+  end.
 Definition reb_out (t0 : Z) (r : out) : out :=
   match r with
   | OutGet (Some (v, d)) => OutGet (Some (v, reb t0 d))
